@@ -13,3 +13,5 @@ for p in "$@"; do
 done
 git checkout -- . 
 rm -rf /verif/evidence /verif/coq/Gen; cp -a /tmp/verif_seed_keep/evidence /verif/evidence; cp -a /tmp/verif_seed_keep/Gen /verif/coq/Gen; rm -rf /tmp/verif_seed_keep
+# the restored files carry their old mtimes: make must not keep .vo files compiled from the mutated tree
+touch /verif/coq/Gen/*.v
